@@ -461,9 +461,10 @@ func classify(f failure) string {
 		return "script-end-tag-slash"
 	case strings.Contains(src, "<!--") && commentHasMarkup(src):
 		return "html-comment-desync"
-	case strings.Contains(src, "`") && inScript(src, "`"):
+	case strings.Contains(src, "`") && (f.b.d.format == "js" || inScript(src, "`")):
+		// (a standalone .js file is in the lexer's JS context from its first byte)
 		return "js-template-literal"
-	case scriptHasRegexWithQuote(src):
+	case scriptHasRegexWithQuote(src, f.b.d.format == "js"):
 		return "js-regex-literal-quote"
 	case holeInJSBlockComment(src) && anyVal(f.usedVals(), func(v string) bool { return strings.Contains(v, "*/") }):
 		return "js-block-comment-breakout"
@@ -626,19 +627,22 @@ func inScript(src, what string) bool {
 
 // the script text of the template (holes replaced by 0) contains a regular-expression literal
 // with a quote character in it
-func scriptHasRegexWithQuote(src string) bool {
-	low := strings.ToLower(src)
-	i := strings.Index(low, "<script")
-	if i < 0 {
-		return false
-	}
-	j := strings.Index(src[i:], ">")
-	if j < 0 {
-		return false
-	}
-	body := src[i+j+1:]
-	if k := strings.Index(strings.ToLower(body), "</script"); k >= 0 {
-		body = body[:k]
+func scriptHasRegexWithQuote(src string, jsFile bool) bool {
+	body := src // a standalone .js file: all of it
+	if !jsFile {
+		low := strings.ToLower(src)
+		i := strings.Index(low, "<script")
+		if i < 0 {
+			return false
+		}
+		j := strings.Index(src[i:], ">")
+		if j < 0 {
+			return false
+		}
+		body = src[i+j+1:]
+		if k := strings.Index(strings.ToLower(body), "</script"); k >= 0 {
+			body = body[:k]
+		}
 	}
 	for {
 		a := strings.Index(body, "{{")
